@@ -157,3 +157,8 @@ Definition vec_nth {A} (v : list A) (i : N) : option A := nth_error v (N.to_nat 
 
 (** [v.contains(&x)] on a vector of integers *)
 Definition vec_contains (v : list N) (x : N) : bool := existsb (N.eqb x) v.
+
+(** [opt.is_none()], [opt.is_some()], [v.is_empty()] *)
+Definition is_none_of {A} (o : option A) : bool := match o with None => true | Some _ => false end.
+Definition is_some_of {A} (o : option A) : bool := match o with None => false | Some _ => true end.
+Definition is_empty_of {A} (v : list A) : bool := match v with [] => true | _ => false end.
